@@ -54,7 +54,10 @@ def _runs_before_or_after(g, popn, canceln, name):
     return extra <= {fact_key('%s is None' % name, False), fact_key(name, True)}
 
 
-def check(ctx):
+def retransmission_rules(ctx, r1='R1', r2='R2', r5='R5'):
+    """send_packet / _no_answer_do_retry: when a retry timer is armed, when a retry may transmit (pattern still pending, decided
+    under the send lock) and what runs inside the lock.  Shared with C04: a write that was answered is not transmitted again -
+    otherwise an old value reaches the device after a newer one and the cache no longer equals the device."""
     m = ctx.model
     sp = m.func(CF, 'Crazyflie.send_packet')
     g = cfg_of(sp)
@@ -76,7 +79,7 @@ def check(ctx):
                 inside = d_.ast is not None and (id(d_.ast) in locked_ or any(g.dominates(a_[0], d_) for a_ in acq_))
                 if dv_ is not None and norm(dv_) == 'self.link' and not inside:
                     stale.append('%s = self.link at line %d' % (c_.func.value.id, d_.line))
-        ctx.inst('R2', sp, 'link-read-under-the-send-lock', bool(loc) and not stale, 'the link that transmits is read from self.link after the send lock was taken; read before: %s' % stale)
+        ctx.inst(r2, sp, 'link-read-under-the-send-lock', bool(loc) and not stale, 'the link that transmits is read from self.link after the send lock was taken; read before: %s' % stale)
         ctx.need(not stale and len(loc) >= 1 and len({c_.func.value.id for _, c_ in loc}) == 1, 'send_packet: no transmission through self.link or one local read from it')
         sends = loc
     LR = norm(sends[0][1].func.value)        # the link as send_packet names it: self.link, or the local it was read into under the lock
@@ -93,12 +96,12 @@ def check(ctx):
             n_retry += 1
             pend = [k for k in keys if k[1] and k[0].endswith(' in ' + PAT)]
             ok = link_open in keys and bool(pend)
-            ctx.inst('R1', sp, 'retry-timer-guard', ok, 're-arming requires an open link and a still pending pattern; guards %s' % sorted(keys))
+            ctx.inst(r1, sp, 'retry-timer-guard', ok, 're-arming requires an open link and a still pending pattern; guards %s' % sorted(keys))
         else:
             n_first += 1
             want = [link_open, fact_key('len(expected_reply) > 0', True), fact_key('resend', False), fact_key('%s.needs_resending' % LR, True)]
             ok = all(w in keys for w in want)
-            ctx.inst('R1', sp, 'first-timer-guard', ok,
+            ctx.inst(r1, sp, 'first-timer-guard', ok,
                      'arming requires open link, non-empty expectation, not a resend, driver needs resending; guards %s' % sorted(keys))
         # stored under the pattern and started
         tv = None
@@ -108,7 +111,7 @@ def check(ctx):
                   and tv and norm(x.ast.value) == tv and g.dominates(n, x)]
         started = [x for x, cc in g.find(lambda q: method_call(q, 'start')) if tv and norm(cc.func.value) == tv and g.dominates(n, x)]
         reach_send = all(g.path_avoiding(n, [s[0]], avoid=[x for x in stored + started]) is None or True for s in sends)
-        ctx.inst('R1', sp, ('retry' if is_retry else 'first') + '-timer-stored-started', len(stored) >= 1 and len(started) >= 1 and reach_send,
+        ctx.inst(r1, sp, ('retry' if is_retry else 'first') + '-timer-stored-started', len(stored) >= 1 and len(started) >= 1 and reach_send,
                  'the new timer must be recorded in the pattern table and started (stored=%d, started=%d)' % (len(stored), len(started)))
         # key
         if stored:
@@ -117,7 +120,7 @@ def check(ctx):
                     any(g.dominates(dn, n) for dn in g.nodes_of(s))]
             ktxt = norm(kdef[-1].value) if kdef else key
             want = 'expected_reply' if is_retry else '(pk.header,) + expected_reply'
-            ctx.inst('R1', sp, ('retry' if is_retry else 'first') + '-pattern', ktxt == want, 'pattern key is %s, expected %s' % (ktxt, want))
+            ctx.inst(r1, sp, ('retry' if is_retry else 'first') + '-pattern', ktxt == want, 'pattern key is %s, expected %s' % (ktxt, want))
             # callback
             lam = c.args[1] if len(c.args) > 1 else None
             okl = isinstance(lam, ast.Lambda) and isinstance(lam.body, ast.Call) and norm(lam.body.func) == 'self._no_answer_do_retry' and \
@@ -125,11 +128,11 @@ def check(ctx):
             # functools.partial(self._no_answer_do_retry, pk, key) binds the same two values
             okl = okl or (isinstance(lam, ast.Call) and dotted(lam.func) in ('partial', 'functools.partial') and not lam.keywords and
                           [norm(a) for a in lam.args] == ['self._no_answer_do_retry', 'pk', key])
-            ctx.inst('R1', sp, ('retry' if is_retry else 'first') + '-timer-callback', bool(okl),
+            ctx.inst(r1, sp, ('retry' if is_retry else 'first') + '-timer-callback', bool(okl),
                      'timer must fire self._no_answer_do_retry(pk, %s); found %s' % (key, norm(lam) if lam is not None else None))
-            ctx.inst('R1', sp, ('retry' if is_retry else 'first') + '-timer-interval', norm(c.args[0]) == 'timeout' if c.args else False,
+            ctx.inst(r1, sp, ('retry' if is_retry else 'first') + '-timer-interval', norm(c.args[0]) == 'timeout' if c.args else False,
                      'timer interval must be the timeout argument')
-    ctx.inst('R1', sp, 'timer-sites', n_first == 1 and n_retry == 1, 'one arming site for the first send and one for retries (first=%d retry=%d)' % (n_first, n_retry))
+    ctx.inst(r1, sp, 'timer-sites', n_first == 1 and n_retry == 1, 'one arming site for the first send and one for retries (first=%d retry=%d)' % (n_first, n_retry))
     retry = m.func(CF, 'Crazyflie._no_answer_do_retry')
     rc = [c for c in walk_own(retry.node) if method_call(c, 'send_packet')]
     spd = {k_: norm(v_) for k_, v_ in (sp.defaults() if callable(sp.defaults) else sp.defaults).items()}
@@ -138,14 +141,14 @@ def check(ctx):
     okr = len(rc) == 1 and [norm(a) for a in rc[0].args] == [retry.params[1]] and kws == {'expected_reply': retry.params[2], 'resend': 'True'}
     gr_ = cfg_of(retry)
     rn_ = gr_.node_of(rc[0]) if len(rc) == 1 else None
-    ctx.inst('R1', retry, 'retry-unconditional', rn_ is not None and not gr_.fact_keys_at(rn_) and ('n', rn_.id) in (gr_.dom().get(('n', gr_.exit.id)) or ()),
+    ctx.inst(r1, retry, 'retry-unconditional', rn_ is not None and not gr_.fact_keys_at(rn_) and ('n', rn_.id) in (gr_.dom().get(('n', gr_.exit.id)) or ()),
              'an expired timer always retransmits (send_packet itself drops the retry when the request was answered or the link is gone): a guard here - on the connection '
              'state, say - stops the retries of a request made before the first packet arrived; guards %s' % (sorted(gr_.fact_keys_at(rn_)) if rn_ is not None else '?'))
     gsp_ = cfg_of(sp)
     uses_ = [n for n in gsp_.nodes if n.kind == 'stmt' and isinstance(n.ast, ast.Assign) and norm(n.ast.targets[0]) == 'pattern']
-    ctx.inst('R1', sp, 'expectation-as-given', bool(uses_) and all(unchanged_param(gsp_, n, 'expected_reply') for n in uses_) and 'expected_reply' in sp.params,
+    ctx.inst(r1, sp, 'expectation-as-given', bool(uses_) and all(unchanged_param(gsp_, n, 'expected_reply') for n in uses_) and 'expected_reply' in sp.params,
              'the pattern is built from the expected_reply argument as the caller gave it (a shim that strips or rewrites leading bytes makes the real reply miss the pattern)')
-    ctx.inst('R1', retry, 'retry-call', okr, 'retry must call send_packet(pk, expected_reply=pattern, resend=True); found %s' % [norm(c) for c in rc])
+    ctx.inst(r1, retry, 'retry-call', okr, 'retry must call send_packet(pk, expected_reply=pattern, resend=True); found %s' % [norm(c) for c in rc])
 
     # ---- R2: transmission on the retry path needs a pending pattern -------------
     removed = []
@@ -159,26 +162,33 @@ def check(ctx):
                 tests += 1
     for n, c in sends:
         w = g.path_avoiding(g.entry, [n], avoid_edges=removed)
-        ctx.inst('R2', sp, 'resend-needs-pending', w is None and tests >= 1,
+        ctx.inst(r2, sp, 'resend-needs-pending', w is None and tests >= 1,
                  'a retry reaches the transmission without the pattern being pending: %s' % (g.fmt_path(w) if w else 'no pending test at all'))
         keys = g.fact_keys_at(n)
-        ctx.inst('R2', sp, 'send-needs-open-link', link_open in keys, 'transmission must be guarded by self.link is not None')
+        ctx.inst(r2, sp, 'send-needs-open-link', link_open in keys, 'transmission must be guarded by self.link is not None')
 
     # ---- R5: inside the lock region ---------------------------------------------
     regs, gl = regions(sp, 'self._send_lock')
     ctx.need(len(regs) == 1, 'send_packet: expected one _send_lock region, found %d' % len(regs))
     held = {n.id for n in regs[0].held}
     for n, c in gl.find(lambda q: method_call(q, 'send_packet') and norm(q.func.value) == LR):
-        ctx.inst('R5', sp, 'send-under-lock', n.id in held, 'transmission must happen while _send_lock is held')
+        ctx.inst(r5, sp, 'send-under-lock', n.id in held, 'transmission must happen while _send_lock is held')
     for n, c in gl.find(lambda q: isinstance(q, ast.Compare) and norm(q) == '%s is not None' % LR):
-        ctx.inst('R5', sp, 'link-test-under-lock', n.id in held, 'the link-open test must be made under the lock')
+        ctx.inst(r5, sp, 'link-test-under-lock', n.id in held, 'the link-open test must be made under the lock')
     esc = regs[0].escape(include_raise=True)
-    ctx.inst('R5', sp, 'lock-released', esc is None, 'send lock not released on %s' % (gl.fmt_path(esc) if esc else ''))
+    ctx.inst(r5, sp, 'lock-released', esc is None, 'send lock not released on %s' % (gl.fmt_path(esc) if esc else ''))
     klass = m.cls(CF, 'Crazyflie')
     other = [(f, c) for f in klass.methods.values() if f.name != 'send_packet' for c in walk_own(f.node)
              if method_call(c, 'send_packet') and 'link' in norm(c.func.value).split('.')[-1:]]
-    ctx.inst('R5', sp, 'single-transmit-site', not other, 'only send_packet may call the driver: also in %s' % [f.qualname for f, _ in other])
+    ctx.inst(r5, sp, 'single-transmit-site', not other, 'only send_packet may call the driver: also in %s' % [f.qualname for f, _ in other])
 
+    return sp, g, LR
+
+
+def check(ctx):
+    m = ctx.model
+    sp, g, LR = retransmission_rules(ctx)
+    klass = m.cls(CF, 'Crazyflie')
     # ---- R3: longest-prefix match -------------------------------------------------
     ca = m.func(CF, 'Crazyflie._check_for_answers')
     ga = cfg_of(ca)
